@@ -728,6 +728,33 @@ func (ex *Exec) evalCall(x ECall, st *State, env *Env) TV {
 			r = ex.scalarOf(v.V)
 		}
 		return TV{Sc{And(Ge(r, base), Lt(r, st.alloc))}, tBool}
+	case "visitedin": // visitedin(N, k): key k has already been produced by the map range that is loop N of this function
+		n := 0
+		if lit, ok := x.Args[0].(EInt); ok {
+			fmt.Sscan(lit.Val, &n)
+		}
+		k := ex.scalarOf(arg(1).V)
+		for r, rs := range ex.ranges {
+			if r.Parent() != ex.top.fn || r.Referrers() == nil {
+				continue
+			}
+			for _, ref := range *r.Referrers() {
+				nx, ok := ref.(*ssa.Next)
+				if !ok {
+					continue
+				}
+				for _, li := range findLoops(nx.Parent()) {
+					if li.header == nx.Block() && li.ordinal == n {
+						h, ok := st.heap[rs.visited]
+						if !ok {
+							h = ex.heap0[rs.visited]
+						}
+						return TV{Sc{Sel(h, k)}, tBool}
+					}
+				}
+			}
+		}
+		panic(unsupported(fmt.Sprintf("visitedin(%d, …): loop %d is not a map range that has started", n, n)))
 	case "visited": // visited(k): key k has already been produced by the (only) map range of this function
 		k := ex.scalarOf(arg(0).V)
 		var keys []string
